@@ -649,8 +649,10 @@ class FmtStr:
                 if end - start == chunk.width:
                     parts.append(chunk)
                 else:
+                    # a negative start means the slice began in an earlier run, so
+                    # zero-width characters opening this run belong to the slice
                     s_part = width_aware_slice(
-                        chunk.s, max(0, index.start - counter), index.stop - counter
+                        chunk.s, index.start - counter, index.stop - counter
                     )
                     parts.append(Chunk(s_part, chunk.atts))
             counter += chunk.width
